@@ -271,16 +271,19 @@ pub fn run(c: &Case) -> Outcome {
     };
     // concurrent writers
     let stop_writers = Arc::new(AtomicBool::new(false));
+    let progress = Arc::new(std::sync::atomic::AtomicU32::new(0));
     let mut writers = Vec::new();
     for w in 0..c.writers.min(2) {
         let cl = s.client.clone();
         let st = stop_writers.clone();
+        let pr = progress.clone();
         writers.push(std::thread::spawn(move || {
             let mut i = 0u16;
             // bounded: the server side does not read input during a scenario and a unix socket accounts ~1 KB per small write: the buffer must never fill up (a writer blocked inside write holds the client lock)
             while !st.load(Ordering::Relaxed) && i < 40 {
                 if let Ok(mut g) = cl.lock() {
                     let _ = g.try_write(RdpEvent::Pointer(PointerEvent { x: i, y: w as u16, button: PointerButton::None, down: false }));
+                    pr.fetch_add(1, Ordering::Relaxed);
                 }
                 i = i.wrapping_add(1);
                 std::thread::sleep(Duration::from_micros(300));
@@ -302,13 +305,20 @@ pub fn run(c: &Case) -> Outcome {
     let want: Vec<u16> = (0..before_end as u16).collect();
     d!("collected {:?}", got);
     let finish = |s: &mut Session, stop_writers: &Arc<AtomicBool>, writers: Vec<std::thread::JoinHandle<()>>| {
-        // release whatever is still running so that the next scenario starts clean
+        // release whatever is still running so that the next scenario starts clean: first the receive thread (it may
+        // hold the client lock), then the writers; threads that do not come back within the deadline are leaked
         stop_writers.store(true, Ordering::Relaxed);
-        for w in writers {
-            let _ = w.join();
-        }
         s.sync.store(false, Ordering::Relaxed);
         let _ = s.tls.get_mut().sock.shutdown(std::net::Shutdown::Both);
+        for w in writers {
+            let t0 = Instant::now();
+            while !w.is_finished() && t0.elapsed() < Duration::from_secs(3) {
+                std::thread::sleep(Duration::from_millis(2));
+            }
+            if w.is_finished() {
+                let _ = w.join();
+            }
+        }
         if let Some(h) = s.handle.take() {
             let t0 = Instant::now();
             while !h.is_finished() && t0.elapsed() < Duration::from_secs(3) {
@@ -349,6 +359,20 @@ pub fn run(c: &Case) -> Outcome {
         finish(&mut s, &stop_writers, writers);
         d!("finished");
         return out;
+    }
+    // concurrent input: while the receive thread waits for the (silent) server, another thread must still be able to
+    // lock the client and write; a receive thread that keeps the lock across its wait starves it
+    if !writers.is_empty() {
+        let p0 = progress.load(Ordering::Relaxed);
+        let t0 = Instant::now();
+        while progress.load(Ordering::Relaxed) == p0 && writers.iter().any(|w| !w.is_finished()) && t0.elapsed() < Duration::from_secs(2) {
+            std::thread::sleep(Duration::from_millis(2));
+        }
+        if progress.load(Ordering::Relaxed) == p0 && writers.iter().any(|w| !w.is_finished()) {
+            out.fail("writer-starved-while-waiting", format!("with the server silent for 2 s no concurrent lock + try_write completed ({} done so far): the receive thread keeps the shared client locked while it waits", p0));
+            finish(&mut s, &stop_writers, writers);
+            return out;
+        }
     }
     // (ii) the end event
     if c.end != EndMode::None {
